@@ -4,6 +4,8 @@ from __future__ import annotations
 
 import re
 
+from .core import flag
+
 from .srtvtt_common import time_obs, rgba, open_text
 
 # ---------------------------------------------------------------------------------------------------------------
@@ -336,7 +338,7 @@ def items_of(p):
         i = 1 if fs is styles.FontStyleType.italic else 0
       td = e.get_style(styles.StyleProperties.TextDecoration)
       if td is not None and td.underline is not None:
-        u = 1 if td.underline else 0
+        u = flag(td.underline)
       c = e.get_style(styles.StyleProperties.Color)
       if c is not None:
         col = rgba(c)
